@@ -192,7 +192,7 @@ class Log:
                 self.exit_heap = int(w[1].split("=")[1])
             elif k == "REPLYTEXT":
                 self.replies[step] = unhex(w[3])
-                self.reply_list.append((step, int(w[1][1:]), int(w[2]), unhex(w[3])))
+                self.reply_list.append((step, int(w[1][1:]), int(w[2].split(",")[0]), unhex(w[3])))
             elif k in ("BADCMD", "BADBATCH", "FATAL"):
                 self.bad.append(ln)
 
